@@ -208,7 +208,7 @@ func payloadsOf(route string) []payload {
 		return []payload{{name: "", kind: bodyNone, query: []kv{{"id", someUUID}}}}
 	case "POST /services/admin/logon":
 		return []payload{
-			{name: "basic", kind: bodyNone, tweak: func(b *build, id identity) { b.setHeader("Authorization", id.Basic) }},
+			{name: "basic", kind: bodyNone},
 			{name: "body", ctype: "application/json", kind: bodyJSON, json: obj("username", "?", "password", "?", "expiration", "1h"),
 				tweak: func(b *build, id identity) {
 					b.dropHeader("Authorization")
@@ -242,13 +242,16 @@ func payloadsOf(route string) []payload {
 			b.setForm("password", password(id.User))
 		})}
 	case "POST /oauth2/token":
+		// the client authenticates in the form; an Authorization header would be read as client credentials
+		noAuth := func(b *build, id identity) { b.dropHeader("Authorization") }
+
 		return []payload{
-			formBody("client_credentials", kv{"grant_type", "client_credentials"}, kv{"client_id", "vclient"}, kv{"client_secret", asSecret}, kv{"scope", "openid"}),
-			formBody("authorization_code", kv{"grant_type", "authorization_code"}, kv{"client_id", "vpublic"}, kv{"code", "nosuchcode"}, kv{"redirect_uri", "https%3A%2F%2Fapp.verif.test%2Fcb"}, kv{"code_verifier", "dBjftJeZ4CVP-mB92K27uhbUJU1p1r_wW1gFWFOEjXk"}),
-			formBody("refresh_token", kv{"grant_type", "refresh_token"}, kv{"client_id", "vpublic"}, kv{"refresh_token", "nosuchtoken"}),
+			formBody("client_credentials", kv{"grant_type", "client_credentials"}, kv{"client_id", "vclient"}, kv{"client_secret", asSecret}, kv{"scope", "openid"}).with(noAuth),
+			formBody("authorization_code", kv{"grant_type", "authorization_code"}, kv{"client_id", "vpublic"}, kv{"code", "nosuchcode"}, kv{"redirect_uri", "https%3A%2F%2Fapp.verif.test%2Fcb"}, kv{"code_verifier", "dBjftJeZ4CVP-mB92K27uhbUJU1p1r_wW1gFWFOEjXk"}).with(noAuth),
+			formBody("refresh_token", kv{"grant_type", "refresh_token"}, kv{"client_id", "vpublic"}, kv{"refresh_token", "nosuchtoken"}).with(noAuth),
 		}
 	case "POST /oauth2/revoke":
-		return []payload{formBody("", kv{"token", "abc.def.ghi"}, kv{"token_type_hint", "access_token"}, kv{"client_id", "vclient"}, kv{"client_secret", asSecret})}
+		return []payload{formBody("", kv{"token", "abc.def.ghi"}, kv{"token_type_hint", "access_token"}, kv{"client_id", "vclient"}, kv{"client_secret", asSecret}).with(func(b *build, id identity) { b.dropHeader("Authorization") })}
 	case "GET /oauth2/authorize":
 		return []payload{{name: "", kind: bodyNone, query: []kv{{"response_type", "code"}, {"client_id", "vclient"}, {"redirect_uri", "https%3A%2F%2Fapp.verif.test%2Fcb"}, {"scope", "openid"},
 			{"state", "st4te"}, {"code_challenge", "E9Melhoa2OwvFrEMTJguCHaoeK1t8URWbuGJSstw-cM"}, {"code_challenge_method", "S256"}}}}
@@ -321,7 +324,9 @@ func (p *plan) variantsOf(f router.VerifC20Flags) []variant {
 			}
 
 			b.setHeader("Accept", accept)
-			b.setHeader("Authorization", id.Bearer)
+			// Basic credentials are the well-formed form (a bearer token costs the server an Argon2id
+			// derivation per new salt; tokens appear among the deviations of the Authorization header)
+			b.setHeader("Authorization", id.Basic)
 
 			b.query = append(b.query, pl.query...)
 			b.bodyKind = pl.kind
